@@ -3,7 +3,7 @@ import numpy as np
 
 from aomon.core import pure_call
 from aomon.oracles import screen as scr_oracle, vk
-from aomon.probes import ScriptedGenerator, unit_script
+from aomon.probes import ScriptedGenerator, unit_script, discover_shapes, unit_stream_script
 
 LEVEL = "exploration"
 TECHNIQUE = "definitional reference monitors on the real estimators, heap-poisoning sanitizer for uninitialised output, unit-draw ensemble probe through the real screen generator"
@@ -106,12 +106,12 @@ def check_sf_ensemble(ctx, aotools, sf_fn, rng, N):
     acc = np.zeros(lags)
     zero = aotools.ft_phase_screen(r0, N, delta, L0, l0, seed=ScriptedGenerator([]))
     ctx.check(float(np.abs(zero).max()) == 0.0, "screen:zero_draws", "screen is not zero for zero draws", wit)
-    for which in (0, 1):
-        for idx in range(N * N):
-            g = ScriptedGenerator(unit_script(which, idx, [(N, N), (N, N)]))
-            s = aotools.ft_phase_screen(r0, N, delta, L0, l0, seed=g)
-            ctx.count("ensemble_probe_screens")
-            acc += sf_fn(s, lags, step)
+    shapes = discover_shapes(aotools.ft_phase_screen, r0, N, delta, L0, l0)
+    for pos in range(sum(int(np.prod(sh)) for sh in shapes)):
+        g = ScriptedGenerator(unit_stream_script(pos, shapes))
+        s = aotools.ft_phase_screen(r0, N, delta, L0, l0, seed=g)
+        ctx.count("ensemble_probe_screens")
+        acc += sf_fn(s, lags, step)
     C = scr_oracle.grid_covariance(N, delta, r0, L0, l0)
     want = 2 * (C[0, 0] - C[np.arange(lags), 0])
     ctx.close("sf_ensemble_vs_discrete_covariance", acc, want, 1e-10 * float(want.max()), "structure_function:screen_ensemble", wit, scale=float(want.max()))
